@@ -57,8 +57,10 @@ pub fn fadt_flag_bits(idx: u64) -> u32 {
     }
 }
 
-/// Expected values of the flag / attribute / gated fields of the structure built by `op`
+/// Expected values of the flag / attribute / gate fields of the structure built by `op`
 /// (entry ops, or the root op of a TCPA-server / FADT trace with the applied options in `op.s`).
+/// Only what C11 states is expected here: flag bits, enumerated attributes and "values supplied"
+/// gates. Whether a supplied *value* lands at its offset is C04's question (not claimed).
 pub fn expected_fields(op: &Op) -> Vec<FieldExp> {
     let mut v = Vec::new();
     match op.k {
@@ -77,21 +79,11 @@ pub fn expected_fields(op: &Op) -> Vec<FieldExp> {
                 f |= 4;
             }
             v.push(fe("GICC flags", 12, 4, u64::MAX, f));
-            v.push(fe("GICC performance interrupt GSIV", 20, 4, u64::MAX, last(op, K::GcPerfInt).map(|o| o.arg(0) & 0xffff_ffff).unwrap_or(0)));
-            v.push(fe("GICC VGIC maintenance interrupt", 56, 4, u64::MAX, last(op, K::GcMaintInt).map(|o| o.arg(0) & 0xffff_ffff).unwrap_or(0)));
-            for (i, (off, w)) in GICC_SET.iter().enumerate() {
-                let val = op.s.iter().rev().find(|o| o.k == K::GcSet && o.arg(0) == i as u64).map(|o| o.arg(1) & full(*w)).unwrap_or(0);
-                v.push(fe("GICC field", *off, *w, u64::MAX, val));
-            }
         }
         K::MaGicMsi => {
             let spi = last(op, K::MsSpi);
             // ACPI 6.5 table 5.38: bit 0 set = SPI count/base fields override MSI_TYPER
             v.push(fe("GIC MSI frame flags (SPI count/base select)", 16, 4, u64::MAX, if spi.is_some() { 1 } else { 0 }));
-            v.push(fe("GIC MSI SPI count", 20, 2, u64::MAX, spi.map(|o| o.arg(0) & 0xffff).unwrap_or(0)));
-            v.push(fe("GIC MSI SPI base", 22, 2, u64::MAX, spi.map(|o| o.arg(1) & 0xffff).unwrap_or(0)));
-            v.push(fe("GIC MSI frame id", 4, 4, u64::MAX, last(op, K::MsFrameId).map(|o| o.arg(0) & 0xffff_ffff).unwrap_or(0)));
-            v.push(fe("GIC MSI base address", 8, 8, u64::MAX, last(op, K::MsBase).map(|o| o.arg(0)).unwrap_or(0)));
         }
         K::SrMemAff => {
             let f = (any(op, K::OptEnabled) as u64) | (any(op, K::OptHotplug) as u64) << 1 | (any(op, K::OptNonVolatile) as u64) << 2;
@@ -103,9 +95,6 @@ pub fn expected_fields(op: &Op) -> Vec<FieldExp> {
         }
         K::SrRintcAff => {
             v.push(fe("RINTC affinity flags", 12, 4, u64::MAX, any(op, K::OptEnabled) as u64));
-            if crate::compat::HAS_RINTC_AFF_PROX {
-                v.push(fe("RINTC affinity proximity domain", 4, 4, u64::MAX, last(op, K::OptProxDomain).map(|o| o.arg(0) & 0xffff_ffff).unwrap_or(0)));
-            }
         }
         K::PpProc => {
             let f = (any(op, K::PnPhysical) as u64)
@@ -124,9 +113,6 @@ pub fn expected_fields(op: &Op) -> Vec<FieldExp> {
                 }
             }
             v.push(fe("cache node flags (valid bits)", 4, 4, u64::MAX, f));
-            v.push(fe("cache size", 12, 4, u64::MAX, last(op, K::CnSize).map(|o| o.arg(0) & 0xffff_ffff).unwrap_or(0)));
-            v.push(fe("cache sets", 16, 4, u64::MAX, last(op, K::CnSets).map(|o| o.arg(0) & 0xffff_ffff).unwrap_or(0)));
-            v.push(fe("cache associativity", 20, 1, u64::MAX, last(op, K::CnAssoc).map(|o| o.arg(0) & 0xff).unwrap_or(0)));
             let mut attr = 0u64;
             for o in &op.s {
                 match o.k {
@@ -137,8 +123,6 @@ pub fn expected_fields(op: &Op) -> Vec<FieldExp> {
                 }
             }
             v.push(fe("cache attributes", 21, 1, u64::MAX, attr));
-            v.push(fe("cache line size", 22, 2, u64::MAX, last(op, K::CnLineSize).map(|o| o.arg(0) & 0xffff).unwrap_or(0)));
-            v.push(fe("cache id", 24, 4, u64::MAX, last(op, K::CnId).map(|o| o.arg(0) & 0xffff_ffff).unwrap_or(0)));
         }
         K::CeCfmws => {
             let f = (any(op, K::WrType2) as u64)
@@ -172,9 +156,6 @@ pub fn expected_fields(op: &Op) -> Vec<FieldExp> {
             let int = (any(op, K::TsEdge) as u64) | (any(op, K::TsActiveLow) as u64) << 1 | (any(op, K::TsSciGpe) as u64) << 2 | (any(op, K::TsGsi) as u64) << 3;
             v.push(fe("TCPA device flags", 58, 1, u64::MAX, dev));
             v.push(fe("TCPA interrupt flags", 59, 1, u64::MAX, int));
-            v.push(fe("TCPA GPE", 60, 1, u64::MAX, last(op, K::TsSciGpe).map(|o| o.arg(0) & 0xff).unwrap_or(0)));
-            v.push(fe("TCPA GSI", 64, 4, u64::MAX, last(op, K::TsGsi).map(|o| o.arg(0) & 0xffff_ffff).unwrap_or(0)));
-            v.push(fe("TCPA platform class", 36, 2, u64::MAX, 1));
         }
         K::Fadt => {
             let mut f = 0u64;
